@@ -60,8 +60,10 @@ def direct_oracle(r):
         errs.append("retain+sort+transmute differs from plain list")
     if r["iter_mut"] != srt:
         errs.append("sorted_non_zero_iter_mut differs")
-    if r["len"] != n_push:
-        errs.append("len is not the number of pushes")
+    # the plain list's length (before the fix of `retain_non_zero` the compact list kept reporting
+    # the number of pushes, and this oracle had copied that)
+    if r["len"] != len(l):
+        errs.append(f"len() is {r['len']} but the plain list has {len(l)} elements")
     return errs
 
 
